@@ -832,6 +832,9 @@ impl SortableStrVec {
         Ok(())
     }
 
+    /// Deepest byte position the MSD radix sort recurses to before it compares the remaining suffixes
+    const MAX_RADIX_DEPTH: usize = 64;
+
     /// Static helper for MSD radix sort to avoid borrow conflicts
     fn radix_sort_msd_helper(
         arena: &[u8],
@@ -844,8 +847,11 @@ impl SortableStrVec {
             return;
         }
 
-        // Use insertion sort for small subarrays (faster than radix for small data)
-        if indices.len() < 32 {
+        // Use insertion sort for small subarrays (faster than radix for small data).
+        // The recursion descends one level per byte the strings of a bucket have in common and every
+        // frame holds a 257-word count table: beyond a fixed depth the remaining suffixes are compared
+        // directly, so that strings with a long common prefix cannot exhaust the stack.
+        if indices.len() < 32 || depth >= Self::MAX_RADIX_DEPTH {
             indices.sort_unstable_by(|&a, &b| {
                 let entry_a = entries[a];
                 let entry_b = entries[b];
